@@ -319,13 +319,16 @@ func sigVerify(scheme string, h crypto.Hash, key M, msg, sig []byte) (ok bool) {
 			return false
 		}
 		return ed25519.Verify(ed25519.PublicKey(k), msg, sig)
-	case "pkcs1", "pss":
+	case "pkcs1", "pss", "pssEq":
 		if key["kind"] != "rsa" || !h.Available() {
 			return false
 		}
 		pub := &rsa.PublicKey{N: new(big.Int).SetBytes(unhx(key["n"].(string))), E: int(num(key["e"]))}
 		if scheme == "pkcs1" {
 			return rsa.VerifyPKCS1v15(pub, h, digest(), sig) == nil
+		}
+		if scheme == "pssEq" {
+			return rsa.VerifyPSS(pub, h, digest(), sig, &rsa.PSSOptions{SaltLength: rsa.PSSSaltLengthEqualsHash}) == nil
 		}
 		return rsa.VerifyPSS(pub, h, digest(), sig, nil) == nil
 	}
